@@ -63,6 +63,7 @@ def case_s2(ctx, rng, wd, sparse):
     if shear:
         cellkind = "tri/sheared"
     ppp = gc.random_mask(rng, d)
+    gc.unwrap_in_place(rng, snaps.snapshots, [c["H"] for c in cells], ppp)       # unwrapped coordinates
     sig = rng.uniform(0.03, 0.08, size=(Kr, Kr)) if sparse else rng.uniform(0.08, 0.3, size=(Kr, Kr))
     sig = 0.5 * (sig + sig.T)
     ra = min(geom.agreement_radius(c["H"], ppp) for c in cells)
@@ -198,6 +199,8 @@ def case_tetra(ctx, rng, wd, n5=False, diamond=False):
     N = len(frac)
     frames = 1 if diamond else int(rng.choice([1, 2]))
     snaps = gc.snapshots_from([gc.snapshot_from(cell, (frac + (rng.normal(0, 0.02, frac.shape) if t else 0)) % 1.0, np.ones(N, dtype=int), t) for t in range(frames)])
+    if not diamond:
+        gc.unwrap_in_place(rng, snaps.snapshots, cell["H"], ppp)       # unwrapped coordinates
     info = lambda: {"N": N, "H": cell["H"], "ppp": ppp, "diamond": diamond, "positions": snaps.snapshots[0].positions if N <= 16 else "omitted"}  # noqa: E731
     key = "q8_tetrahedral" + ("/N==5" if N == 5 else "")
     out = "tet.npy" if rng.random() < 0.2 else ""
